@@ -26,6 +26,8 @@ def main():
         for d in sys.argv[1:]:
             d = os.path.abspath(d)
             n = os.path.basename(d).split("-")[1]
+            mt = json.load(open(os.path.join(d, "meta.json")))
+            n = str(mt.get("slot", n))   # which of the agent's two deliverables this seed was (demo file naming)
             tests = sorted(glob.glob(os.path.join(d, "*_test.go.txt")))
             # the seed's own demo (demo_test / demoN_test) plus shared helpers (files without Test functions)
             res = {"seed": os.path.basename(d)}
@@ -57,7 +59,7 @@ def main():
                         if rc != 0:
                             out[state] = "patch does not apply"
                             continue
-                    extra = [t for t in tests if t not in mine and t not in helpers] if "C11-2" in d else []
+                    extra = [t for t in tests if t not in mine and t not in helpers] if ("C11-2" in d or mt.get("shared_demo_files")) else []
                     for t in mine + helpers + extra:
                         dst = os.path.join(WT, pkg, "zzconfirm_" + os.path.basename(t)[:-4])
                         open(dst, "w").write(open(t).read())
